@@ -42,7 +42,7 @@ def _pair(draw):
     w = draw(gens.witness_s(pool))
     cls = draw(st.sampled_from(["identical", "sublist", "weakened", "farkas", "scaled", "separated", "unrelated",
                                 "unbounded", "infeasible-left", "infeasible-right", "empty-right", "empty-left",
-                                "equal-bounds"]))
+                                "equal-bounds", "both-infeasible"]))
     L = draw(gens.termlist_s(pool, w, 1, 5))
     if cls == "identical":
         R = list(draw(st.permutations(L)))
@@ -88,6 +88,15 @@ def _pair(draw):
         t = draw(st.sampled_from(L))
         L = L + [[{k: -v for k, v in t[0].items()}, -t[1] - draw(st.sampled_from([1, 2, 0.5]))]]
         R = draw(gens.termlist_s(pool, w, 1, 3))
+    elif cls == "both-infeasible":
+        t = draw(st.sampled_from(L))
+        L = L + [[{k: -v for k, v in t[0].items()}, -t[1] - draw(st.sampled_from([1, 2, 0.5]))]]
+        if draw(st.booleans()):
+            R = list(draw(st.permutations(L)))
+        else:
+            R = draw(gens.termlist_s(pool, w, 1, 3))
+            t = draw(st.sampled_from(R))
+            R = R + [[{k: -v for k, v in t[0].items()}, -t[1] - draw(st.sampled_from([1, 2, 0.5]))]]
     elif cls == "infeasible-right":
         R = draw(gens.termlist_s(pool, w, 1, 3))
         t = draw(st.sampled_from(R))
